@@ -161,24 +161,24 @@ Section NetProof.
     (forall v, K0' v -> known i E' s v) ->
     Sim n byz blocks i E' T' K0' s T'.
   Proof.
-    intros H Rc Lk Dc Inc Sp Mono K0ok. destruct H. constructor.
+    intros H Rc Lk Dc Inc Sp Mono K0ok. constructor.
     - exact Rc.
     - split; [auto|apply incl_refl].
     - exact Sp.
-    - rewrite Lk. auto.
-    - intros lr b El. rewrite Lk in El. eapply TP.polka_mono; [exact Inc|]. eauto.
-    - auto.
-    - intros e u He Hu. eauto.
-    - rewrite Dc. auto.
-    - auto.
-    - auto.
-    - auto.
+    - rewrite Lk. apply (sm_lock H).
+    - intros lr b El. rewrite Lk in El. eapply TP.polka_mono; [exact Inc|]. apply (sm_lpolka H El).
+    - intros u Hu. apply Mono. apply (sm_hvs H); auto.
+    - intros e u He Hu. apply Mono. eapply (sm_glog H); eauto.
+    - rewrite Dc. apply (sm_dec H).
+    - apply (sm_round H).
+    - apply (sm_sent H).
+    - apply (sm_fuse H).
     - exact K0ok.
-    - eapply Forall_rec_sub_mono; eauto.
-    - eapply Forall_rec_sub_mono; eauto.
-    - destruct sm_shape0 as [L [Sh LL]]. exists L. rewrite Lk. split; auto.
-      eapply lockwal_shape_mono; eauto.
-    - auto.
+    - eapply Forall_rec_sub_mono; [exact Mono|apply (sm_walr H)].
+    - eapply Forall_rec_sub_mono; [exact Mono|apply (sm_walc H)].
+    - destruct (sm_shape H) as [L [Sh LL]]. exists L. rewrite Lk. split; auto.
+      eapply lockwal_shape_mono; [exact Mono|exact Sh].
+    - apply (sm_lsync H).
   Qed.
 
   Lemma NodeOK_transfer net T net' T' j s :
@@ -552,4 +552,35 @@ Example ex_forged_dropped :
   = Some (Some (0, 1%N)) /\
   (* a correct slot cannot be impersonated by ByzSend *)
   run_net 4 ex_byz3 ex_blocks1 [ByzSend (ex_pv 1 0 None)] = net_init 4.
+Proof. vm_compute. repeat split; reflexivity. Qed.
+
+(* a crash between events and a restart: engine 0 locks block 1 on the polka and
+   precommits it, crashes (5 unsynced records per WAL would survive), restarts —
+   the lock (0, 1) comes back from the lock WAL, its two votes from the round WAL
+   — receives the precommits of 1 and 2, commits through the forced import and
+   finalizes block 1; engine 1 finalizes it as well *)
+Definition ex_hist_crash : list nev :=
+  firstn 13 ex_hist ++
+  [ Crash 0 5 5 5; Restart 0;
+    DeliverVotes 1 [ex_pv 0 0 (Some 1%N); ex_pv 2 0 (Some 1%N)];
+    DeliverVotes 2 [mkVote 3 0 Prevote (Some 9%N) 6; ex_pv 0 0 (Some 1%N); ex_pv 1 0 (Some 1%N)];
+    DeliverVotes 0 [ex_pc 1 0 (Some 1%N); ex_pc 2 0 (Some 1%N)];
+    Callback 0 (ECommitCb 0 true);
+    DeliverVotes 1 [ex_pc 0 0 (Some 1%N); ex_pc 2 0 (Some 1%N)] ].
+
+Example ex_blocks1_ok : forall x, In x ex_blocks1 -> (1 <= b_parts x)%N.
+Proof. intros x [<-|[]]. cbn. lia. Qed.
+
+Example ex_hist_crash_meets_hypotheses :
+  boundary_crashes ex_hist_crash = true /\ no_crash ex_hist_crash = false /\
+  (3 * nbyz 4 ex_byz3 < 4)%nat.
+Proof. vm_compute. repeat split; auto; lia. Qed.
+
+Example ex_hist_crash_decides :
+  let mid := run_net 4 ex_byz3 ex_blocks1 (firstn 15 ex_hist_crash) in
+  let net := run_net 4 ex_byz3 ex_blocks1 ex_hist_crash in
+  (* right after the restart: running, step precommit, lock restored, nothing sent twice *)
+  option_map (fun s => (status_ s, stp s, lock_of s, length (sent s))) (node_of mid 0)
+    = Some (Running, SPrecommit, Some (0, 1%N), 2%nat) /\
+  decided_of net 0 = Some 1%N /\ decided_of net 1 = Some 1%N.
 Proof. vm_compute. repeat split; reflexivity. Qed.
